@@ -1,5 +1,6 @@
 use rusty_variant::Variant;
 
+use crate::RuntimeError;
 use crate::interpreter::interpreter_trait::InterpreterTrait;
 use crate::interpreter::registers::Registers;
 
@@ -7,8 +8,13 @@ pub fn push_registers<T: InterpreterTrait>(interpreter: &mut T) {
     interpreter.register_stack().push(Registers::new());
 }
 
-pub fn pop_registers<T: InterpreterTrait>(interpreter: &mut T) {
+pub fn pop_registers<T: InterpreterTrait>(interpreter: &mut T) -> Result<(), RuntimeError> {
+    if interpreter.register_stack().len() <= 1 {
+        // e.g. a GOTO into the body of a FOR loop, followed by its NEXT
+        return Err(RuntimeError::Other("NEXT without FOR".to_owned()));
+    }
     interpreter.register_stack().pop();
+    Ok(())
 }
 
 pub fn load_into_a<T: InterpreterTrait>(interpreter: &mut T, v: &Variant) {
